@@ -94,6 +94,7 @@ def main():
             flavour, prompt = st[1], st[2]
             note(i, kind, 'shell', prompt)
             die_after = st[3] if len(st) > 3 else None      # the connection is lost after that many lines
+            latency = st[4] if len(st) > 4 else 0           # seconds the shell takes over every line (the echo is immediate)
             nlines = 0
             import re as _re
             counter = [None]
@@ -119,6 +120,8 @@ def main():
                     os._exit(0)
                 note(i, kind, 'line', line)
                 out(line + '\n')              # the remote pty echoes what was typed (the tty adds the CR)
+                if latency:
+                    time.sleep(latency)
                 if line == 'exit':
                     os._exit(0)
                 if line.startswith('PS1='):
